@@ -510,12 +510,34 @@ fn tcp_send(slot: &mut Option<net::RawTcp>, addr: SocketAddr, frames: &[Vec<u8>]
     let c = tcp_conn(slot, addr)?;
     let mut all = Vec::new();
     for f in frames { all.extend_from_slice(f); }
-    all.extend_from_slice(&sync_frame());
+    if all.is_empty() { return Ok(()); }
     c.send(&all).map_err(|e| format!("send:{}", e.kind()))
 }
-fn tcp_collect(slot: &mut Option<net::RawTcp>) -> TObs {
+/// Two phases.  (1) The pipeline was sent in one write with nothing behind it: every response it
+/// is owed (`expected` = the non-notify requests) must arrive without any further traffic.
+/// (2) Only then is the sync request sent; a response that shows up only now was withheld until
+/// more bytes arrived (reported as the note `withheld:<n>`).
+fn tcp_collect(slot: &mut Option<net::RawTcp>, expected: usize) -> TObs {
     let mut o = TObs { resps: vec![], alive: false, note: None };
     let Some(c) = slot.as_mut() else { o.note = Some("noconn".into()); return o };
+    let t0 = Instant::now();
+    while o.resps.len() < expected {
+        let left = Duration::from_millis(2500).saturating_sub(t0.elapsed());
+        if left.is_zero() { break; }
+        let _ = c.s.set_read_timeout(Some(left));
+        let mut probe = [0u8; 1];
+        match c.s.peek(&mut probe) {
+            Ok(0) => { o.note = Some("recv:closed".into()); return o; }
+            Ok(_) => {
+                let _ = c.s.set_read_timeout(Some(Duration::from_secs(8)));
+                match c.recv() { Ok(f) => o.resps.push(resp_s(&f)), Err(e) => { o.note = Some(format!("recv:{}", e.kind())); return o; } }
+            }
+            Err(e) if matches!(e.kind(), std::io::ErrorKind::WouldBlock | std::io::ErrorKind::TimedOut) => break,
+            Err(e) => { o.note = Some(format!("recv:{}", e.kind())); return o; }
+        }
+    }
+    let before = o.resps.len();
+    if let Err(e) = c.send(&sync_frame()) { o.note = Some(format!("send:{}", e.kind())); return o; }
     let _ = c.s.set_read_timeout(Some(Duration::from_secs(8)));
     loop {
         match c.recv() {
@@ -523,6 +545,7 @@ fn tcp_collect(slot: &mut Option<net::RawTcp>) -> TObs {
             Err(e) => { o.note = Some(format!("recv:{}", e.kind())); break; }
         }
     }
+    if o.alive && o.resps.len() > before && before < expected { o.note = Some(format!("withheld:{:x}", o.resps.len() - before)); }
     o
 }
 /// after the grace period: anything more on the wire is an extra frame
@@ -581,8 +604,8 @@ fn run_case(line: &str) -> String {
             }
         }
         // --- collect
-        let mut t_tcp = if use_tcp { Some(tcp_collect(&mut tcp_slots[base])) } else { None };
-        let mut t_atcp = if use_atcp { Some(tcp_collect(&mut tcp_slots[base + 1])) } else { None };
+        let mut t_tcp = if use_tcp { Some(tcp_collect(&mut tcp_slots[base], expected)) } else { None };
+        let mut t_atcp = if use_atcp { Some(tcp_collect(&mut tcp_slots[base + 1], expected)) } else { None };
         let mut t_ws = None;
         if use_ws {
             let slot: &mut Option<net::RawWs> = if sat { &mut sat_conn } else { &mut ws_slots[if mw { 1 } else { 0 }] };
